@@ -188,6 +188,11 @@ func genXport(r *rng, seed uint64, focus, arm string) *plan.Plan {
 			case 3:
 				act.Kind = "reply_many"
 				act.Arg = r.rng(3, 6)
+			case 4:
+				// the answer cut short (its counts promise more than follows):
+				// what lies behind it in the read buffer is not part of it
+				act.Kind = "garbage"
+				act.Arg = 2 + r.intn(1000)
 			}
 		case "C06":
 			if kind == "udp" && r.p(0.6) {
@@ -276,6 +281,10 @@ func genXport(r *rng, seed uint64, focus, arm string) *plan.Plan {
 		if r.p(0.3) {
 			xp.Net.UpDrop, xp.Net.UpDup = []float64{0.05, 0.3}[r.intn(2)], []float64{0, 0.1}[r.intn(2)]
 		}
+	}
+	if focus == "C05" && r.p(0.4) {
+		// pooled buffers keep their contents, as shipped
+		p.Knobs.NoPoison, p.Knobs.Quarantine, p.Knobs.GetFill = true, 0, 0
 	}
 	if focus == "C05" && r.p(0.5) {
 		xp.Net.UpDrop, xp.Net.UpDup = []float64{0, 0.05, 0.2}[r.intn(3)], []float64{0, 0.1, 0.3}[r.intn(3)]
